@@ -26,7 +26,13 @@ def main():
     phase, fmt, dirpath, args_idx = sys.argv[1], sys.argv[2], sys.argv[3], int(sys.argv[4])
     from gemdat import Trajectory
 
-    name, kw = worlds.loader_call(fmt, dirpath, worlds.ARGSETS[fmt][args_idx], None)
+    import json
+
+    dataset = None
+    if os.path.exists('dataset.json'):
+        with open('dataset.json') as f:
+            dataset = json.load(f)
+    name, kw = worlds.loader_call(fmt, dirpath, worlds.ARGSETS[fmt][args_idx], None, dataset=dataset)
     if phase == 'crash':
         fs = SimFS(real_exit=True)
         fs.install()
